@@ -172,6 +172,10 @@ def generate(rng, tier, profile='default'):
       uid += 1
       ops.append({'op': 'push', 'c': c,
                   'v': _encode_level(rng, cl['family'], level, uid)})
+  if rng.random() < 0.05:
+    # an integral FLOAT capacity (n_designs=2.0 is accepted by the parameter
+    # class and handed to the container as it is)
+    ks[0] = float(ks[0])
   for h in range(len(ks)):
     ops.append({'op': 'read', 'h': h})
   for cl in clients:
@@ -224,7 +228,7 @@ def _check_read(res, model, k, step, op_kind):
                             'result has a key nothing was pushed under',
                             got=core.canon(key))
   for key, pushed in model.items():
-    exp = sorted(pushed, key=_sortkey, reverse=True)[:max(k, 0)]
+    exp = sorted(pushed, key=_sortkey, reverse=True)[:max(int(k), 0)]
     got = res.get(key, [])
     if not isinstance(got, list):
       got = list(got)
@@ -326,7 +330,7 @@ def execute(desc):
           probe('key_collision_int_float')
       pushed = model.setdefault(key, [])
       # classify the push relative to what the model retains
-      retained = sorted(pushed, key=_sortkey, reverse=True)[:max(k, 0)]
+      retained = sorted(pushed, key=_sortkey, reverse=True)[:max(int(k), 0)]
       rel = 'first'
       if retained:
         sk = _sortkey(item)
